@@ -44,6 +44,20 @@ def snap(a):
     return (a.tobytes(), str(a.dtype), a.shape, a.strides)
 
 
+def poison(*arrays):
+    """Fill recently-freed heap blocks of the sizes in play with 0xFF bytes (NaN as floats): an output buffer that is
+    allocated uninitialised and not fully written then shows up as a result that differs between two applications."""
+    sizes = set()
+    for a in arrays:
+        nb = int(getattr(a, "nbytes", 0))
+        if nb:
+            sizes.update((nb, 2 * nb, nb // 2))
+    for nb in sizes:
+        if 0 < nb <= 1 << 20:
+            junk = [np.full(nb, 0xFF, dtype=np.uint8) for _ in range(8)]
+            del junk
+
+
 def captured_arrays(op, acc=None, seen=None, path="op"):
     """Every ndarray reachable from an operator tree (constructor parameters, cached adjoints/normals)."""
     acc = {} if acc is None else acc
@@ -106,6 +120,21 @@ def lin_failures(sp, dt, aseed):
         sc = scale * (abs(a) * np.linalg.norm(x) + np.linalg.norm(y)) + 1e-30
         if lhs.shape != rhs.shape or not np.linalg.norm((lhs - rhs).astype(np.complex128)) <= 10 * tol(dt) * sc:
             out.append("additivity")
+    except Exception as e:
+        out.append("raises:%s" % type(e.__cause__ or e).__name__)
+        return out
+    # determinism: a second application of the same operator to the same input, after recently freed heap blocks
+    # of the sizes in play were filled with NaN bytes, must give the identical result
+    try:
+        with warnings.catch_warnings():
+            warnings.simplefilter("ignore")
+            y1 = np.array(op(x))
+            poison(x, y1)
+            y2 = np.array(op(x))
+            poison(x, y1)
+            y3 = np.array(op(x))
+        if not (np.array_equal(y1, y2, equal_nan=True) and np.array_equal(y1, y3, equal_nan=True)) or np.isnan(y1).any():
+            out.append("not-reproducible")
     except Exception as e:
         out.append("raises:%s" % type(e.__cause__ or e).__name__)
         return out
@@ -181,6 +210,7 @@ class Sim:
         self.took = set()
         self.reapplied_after_take = False
         self.equal_layouts = set()
+        self.consumed = False
         warnings.simplefilter("ignore")
         try:
             self.op = LO.build(self.sp)
@@ -233,6 +263,7 @@ class Sim:
             elif k == "reapply":
                 if self.inputs:
                     which, x, y0 = self.inputs[op["k"] % len(self.inputs)]
+                    poison(x, y0)
                     y = np.array(self._target(which)(x))
                     if self.took:
                         self.reapplied_after_take = True
@@ -240,6 +271,22 @@ class Sim:
                         self.r.fail("not-reproducible:%s" % self.sp["op"],
                                     "re-applying %s to the same input gave a different result (max diff %s)"
                                     % (which, np.max(np.abs(y - y0)) if y.shape == y0.shape else "shape"))
+            elif k == "consume":
+                # the operator object is handed to a solver (as users do) between applications: afterwards it must
+                # still be the same map (reapply rules) built from unchanged arrays (snapshots below)
+                import sigpy
+                y = A.arr({"k": "g", "shape": list(self.op.oshape), "dtype": self.dt, "seed": op["seed"]})
+                self.snaps["consume-y%d" % len(self.snaps)] = (y, snap(y))
+                st0 = np.random.get_state()
+                np.random.seed(op["seed"] % (2 ** 31))
+                try:
+                    kw = {} if op["solver"] is None else {"solver": op["solver"]}
+                    sigpy.app.LinearLeastSquares(self.op, y, lamda=op["lamda"], max_iter=2, show_pbar=False, **kw).run()
+                    self.consumed = True
+                except Exception:
+                    pass        # an operator the app cannot handle is not C02's subject
+                finally:
+                    np.random.set_state(st0)
             elif k == "reapply_equal":
                 # an EQUAL input held in another memory layout (copy, Fortran order, strided or reversed view)
                 if self.inputs:
@@ -280,6 +327,8 @@ class Sim:
             self.r.label("view-input")
         for l in sorted(self.equal_layouts):
             self.r.label("equal-input:" + l)
+        if self.consumed:
+            self.r.label("used-by-LinearLeastSquares")
         self.r.sig = LO.sig(self.sp) + "|" + ",".join(o["op"] for o in self.case["ops"])
         return self.r
 
@@ -359,6 +408,11 @@ def make_machine(col):
         @rule(k=st.integers(0, 50))
         def reapply(self, k):
             self._do({"op": "reapply", "k": k})
+
+        @precondition(lambda self: self.sim is not None and len(self.sim.inputs) > 0)
+        @rule(seed=A.seeds, lamda=st.sampled_from([0.5, 1.0, 0]), solver=st.sampled_from([None, None, "GradientMethod"]))
+        def consume(self, seed, lamda, solver):
+            self._do({"op": "consume", "seed": seed, "lamda": lamda, "solver": solver})
 
         @precondition(lambda self: self.sim is not None and len(self.sim.inputs) > 0)
         @rule(k=st.integers(0, 50), layout=st.sampled_from(["copy", "fortran", "strided", "reversed", "transposed-base"]))
